@@ -1,9 +1,10 @@
 """C17 / C18 / C01: Huffman-table and LZ77 component contracts of the igzip compressor
-(igzip/huffman.h, igzip/huff_codes.c, igzip/igzip_icf_base.c, igzip/encode_df.c, igzip/igzip_base.c,
- igzip/igzip_icf_body.c, and the table/dictionary/mask functions of igzip/igzip.c)."""
+(igzip/huffman.h, igzip/huff_codes.c, write_deflate_icf of igzip/igzip_icf_base.c and igzip/igzip_icf_body.c,
+ igzip/encode_df.c, and the table / dictionary / mask functions of igzip/igzip.c).
+Solver seconds in the notes were measured with 10-12 other CBMC jobs running; idle-machine times are about 0.6x."""
 from runner import H
 
-HUFFMAN_H = ['igzip/huffman.h', 'include/unaligned.h']
+HUFFMAN_H = ['igzip/huffman.h']
 UA = ['include/unaligned.h']
 
 HARNESSES = []
@@ -36,13 +37,13 @@ HARNESSES += [
     H('get_len_code', ['C01'], A, HUFFMAN_H, enforce='get_len_code', also=['C05', 'C15', 'C18'],
       timeout=300, expect=['postcondition']),
     H('compare258', ['C01'], A, HUFFMAN_H, enforce='compare258', also=['C05', 'C15', 'C17'], timeout=600,
-      replace=['load_le_u64'], object_bits=8,
+      object_bits=8,
       expect=['postcondition', 'loop_invariant_step', 'loop_decreases'], replay=('huff.c', 'compare258')),
     H('compare', ['C01'], A, HUFFMAN_H, enforce='compare', also=['C05', 'C15'], timeout=600,
-      replace=['load_le_u64'], object_bits=8,
+      object_bits=8,
       expect=['postcondition', 'loop_invariant_step', 'loop_decreases'], replay=('huff.c', 'compare')),
-    H('compare258_overlap', ['C01'], A, HUFFMAN_H, enforce='compare258', also=['C05', 'C17'], timeout=600,
-      defines=['CMP_MEM_OVERLAP'], replace=['load_le_u64'], object_bits=8, expect=['postcondition', 'loop_invariant_step'],
+    H('compare258_overlap', ['C01'], A, HUFFMAN_H, enforce='compare258', also=['C05', 'C17'], timeout=3000, tier='thorough',
+      defines=['CMP_MEM_OVERLAP'], object_bits=8, expect=['postcondition', 'loop_invariant_step'],
       replay=('huff.c', 'compare258'),
       note='both pointers into one object (str1 = str2 - dist), the shape of the real call sites'),
     H('rfc_tables_consistent', ['C17', 'C18', 'C01'], A, HUFFMAN_H, timeout=300, expect=['assertion'],
@@ -51,7 +52,7 @@ HARNESSES += [
 
 # ---- B. igzip/huff_codes.c ------------------------------------------------------------------------
 B = 'igzip/huff_b.c'
-HC = ['igzip/huff_codes.c', 'igzip/huffman.h', 'include/unaligned.h']
+HC = ['igzip/huff_codes.c', 'igzip/huffman.h']
 HARNESSES += [
     H('convert_dist_to_dist_sym', ['C18', 'C17'], B, HC, enforce='convert_dist_to_dist_sym', also=['C01', 'C05', 'C15'],
       timeout=300, expect=['postcondition'], replay=('huff.c', 'convert_dist_to_dist_sym')),
@@ -60,11 +61,148 @@ HARNESSES += [
     H('are_hufftables_useable', ['C18'], B, HC, enforce='are_hufftables_useable', also=['C05', 'C15'],
       timeout=600, expect=['postcondition', 'loop_invariant_step', 'loop_decreases'],
       replay=('huff.c', 'are_hufftables_useable')),
-    H('write_rl', ['C18'], B, HC, enforce='write_rl', also=['C05', 'C15'], timeout=600,
-      expect=['postcondition', 'loop_invariant_step', 'loop_decreases'], replay=('huff.c', 'write_rl')),
+    H('write_rl_zero', ['C18'], B, HC, enforce='write_rl', entry='h_write_rl', also=['C05', 'C15'], timeout=600,
+      defines=['RL_MAXRUN=316u', 'RL_ONLY_ZERO'], unwind=4, object_bits=8, expect=['postcondition'],
+      replay=('huff.c', 'write_rl'),
+      bounds='run_len <= 316 = LIT_LEN+DIST_LEN, the capacity of every caller\'s code-length array (contract precondition); '
+             'the 138-loop then runs at most twice and is unwound with unwinding assertion: complete for that domain',
+      note='zero runs (symbols 17/18/0)'),
+    H('write_rl_nonzero', ['C18'], B, HC, enforce='write_rl', entry='h_write_rl', also=['C05', 'C15'], timeout=600,
+      defines=['RL_MAXRUN=37u', 'RL_ONLY_NONZERO'], unwind=7, object_bits=8, expect=['postcondition'], kind='bounded',
+      replay=('huff.c', 'write_rl'), bounds='run_len <= 37 (6 iterations of the repeat-6 loop); full domain in write_rl_nonzero_316',
+      note='non-zero runs (literal length + symbol 16)'),
+    H('write_rl_nonzero_316', ['C18'], B, HC, enforce='write_rl', entry='h_write_rl', also=['C05', 'C15'], timeout=6000,
+      defines=['RL_MAXRUN=316u', 'RL_ONLY_NONZERO'], unwind=54, object_bits=8, expect=['postcondition'], tier='thorough',
+      replay=('huff.c', 'write_rl'),
+      bounds='run_len <= 316 = LIT_LEN+DIST_LEN (contract precondition); repeat-6 loop unwound 53 times with unwinding '
+             'assertion: complete for that domain (measured 1040 s)'),
+    H('create_hufftables_icf_frame', ['C18'], B, HC, enforce='create_hufftables_icf', also=['C15', 'C05', 'C01'], timeout=900,
+      solver='cadical', object_bits=10,
+      replace=['flatten_ll', 'init_heap32', 'gen_huff_code_lens', 'set_huff_codes', 'set_dist_huff_codes', 'rl_encode',
+               'create_header', 'expand_hufftables_icf'],
+      trusted=['frame-only contracts of flatten_ll, init_heap32, gen_huff_code_lens (NASM heap routines inside), set_huff_codes, '
+               'set_dist_huff_codes, rl_encode, create_header, expand_hufftables_icf: each writes exactly the objects it is handed'],
+      expect=['postcondition', 'assigns', 'loop_invariant_step'],
+      note='C15 frame: the non-const global static_hufftables and every other library global stay untouched'),
+    H('set_huff_codes_small', ['C18'], B, HC, functions=['set_huff_codes'], kind='bounded', unwind=17, timeout=900, loop_contracts=False,
+      expect=['assertion'], min_obligations=3,
+      bounds='alphabet of 8 symbols, code lengths 0..4, every length vector with Kraft sum <= 1'),
+    H('set_dist_huff_codes_small', ['C18'], B, HC, functions=['set_dist_huff_codes'], kind='bounded', unwind=31, timeout=900,
+      loop_contracts=False, expect=['assertion'], min_obligations=2,
+      bounds='4 coded symbols (any window of the 30 distance symbols), code lengths 0..3, Kraft sum <= 1'),
+    H('rl_encode_small', ['C18'], B, HC, functions=['rl_encode', 'write_rl'], kind='bounded', defines=['RL_NO_HOOKS'], unwind=20, timeout=900,
+      loop_contracts=False, expect=['assertion'], min_obligations=4,
+      bounds='1..7 code lengths with values 0..15 (runs of at most 7): reference RFC 1951 3.2.7 decoder in the harness'),
     H('spec_rl_valid', ['C18'], B, HC, timeout=300, expect=['assertion'], min_obligations=6,
       note='lemma: the closed-form greedy run-length coding used as write_rl postcondition is RFC 1951 3.2.7-valid '
            'and expands to exactly run copies of v (prefix-sum witness at an arbitrary position)'),
 ]
 
-PROP_TEXT = {}
+# ---- D1. igzip/igzip.c: window mask, table installation, dictionaries ------------------------------
+LZI = 'igzip/lz_igzip.c'
+IGZIP = ['igzip/igzip.c']
+HASH_TRUST = ['isal_deflate_hash_lvl0..3 (NASM): recorded uninterpreted stub -- writes only the hash heads it is '
+              'given, argument values recorded; its requires (table all 0xffff, ranges valid) are checked']
+MEMCPY_TRUST = ('memcpy: recorded model of C11 7.24.2.1 (contracts/stubs_huff.h lz_memcpy): range/overlap checks asserted, '
+                '(dst, src, n) of every call recorded and demanded by the caller\'s contract; byte contents not modelled in the '
+                'registered harnesses (-DLZ_MEMCPY_NO_DATA): CBMC\'s built-in model and any symbolic-index write overflow on '
+                'the 64 KiB buffer inside struct isal_zstream')
+HARNESSES += [
+    H('lz_set_dist_mask', ['C17'], LZI, IGZIP, entry='h_set_dist_mask', enforce='set_dist_mask', also=['C05', 'C15', 'C10'], timeout=600,
+      expect=['postcondition']),
+    H('lz_set_hash_mask', ['C17'], LZI, IGZIP, entry='h_set_hash_mask', enforce='set_hash_mask', also=['C05', 'C15', 'C10'], timeout=600,
+      expect=['postcondition']),
+    H('huff_set_hufftables', ['C18'], LZI, IGZIP, entry='h_set_hufftables', enforce='isal_deflate_set_hufftables', also=['C05', 'C15', 'C10'],
+      timeout=600, expect=['postcondition', 'assigns']),
+    H('set_dict', ['C17'], LZI, IGZIP, defines=['LZ_MEMCPY_NO_DATA'], object_bits=8, enforce='isal_deflate_set_dict', also=['C05', 'C15'], timeout=900,
+      trusted=[MEMCPY_TRUST], expect=['postcondition', 'assigns']),
+    H('process_dict', ['C17'], LZI, IGZIP, defines=['LZ_MEMCPY_NO_DATA'], object_bits=8, solver='cadical', enforce='isal_deflate_process_dict', also=['C05', 'C15'], timeout=900,
+      replace=['isal_deflate_hash_lvl0', 'isal_deflate_hash_lvl1', 'isal_deflate_hash_lvl2',
+               'isal_deflate_hash_lvl3'], trusted=HASH_TRUST + [MEMCPY_TRUST], expect=['postcondition', 'precondition', 'assigns']),
+    H('reset_dict', ['C17'], LZI, IGZIP, defines=['LZ_MEMCPY_NO_DATA'], object_bits=8, enforce='isal_deflate_reset_dict', also=['C05', 'C15'], timeout=900,
+      trusted=[MEMCPY_TRUST], expect=['postcondition', 'assigns']),
+]
+
+# ---- C. token packing and token encoder --------------------------------------------------------------
+ICFB = ['igzip/igzip_icf_base.c']
+ICFBODY = ['igzip/igzip_icf_body.c']
+HARNESSES += [
+    H('write_deflate_icf', ['C01'], 'igzip/lz_icf_base.c', ICFB, enforce='write_deflate_icf', also=['C05', 'C15', 'C17'],
+      timeout=300, expect=['postcondition']),
+    H('write_deflate_icf_packed', ['C01'], 'igzip/lz_icf_body.c', ICFBODY, enforce='write_deflate_icf',
+      also=['C05', 'C15', 'C17'], timeout=300, expect=['postcondition']),
+]
+HARNESSES += [
+    H('encode_deflate_icf_base_bytes', ['C01'], 'igzip/lz_encode.c', ['igzip/encode_df.c'], enforce='encode_deflate_icf_base',
+      entry='h_encode_deflate_icf_base', also=['C05', 'C15', 'C10'], timeout=6000, object_bits=8, solver='cadical', tier='thorough',
+      defines=['EN_BYTES'], expect=['postcondition', 'loop_invariant_step', 'loop_decreases'],
+      bounds='parameter-bounded: at most 4 tokens', note='adds: the 8 bytes at the old write position hold the expected window (measured 685 s)'),
+    H('encode_deflate_icf_base', ['C01'], 'igzip/lz_encode.c', ['igzip/encode_df.c'], enforce='encode_deflate_icf_base',
+      also=['C05', 'C15', 'C10'], timeout=1500, object_bits=8, solver='cadical',
+      expect=['postcondition', 'loop_invariant_step', 'loop_decreases'],
+      bounds='parameter-bounded: at most 4 tokens in the input array (their well-formedness is a 4-way conjunction); '
+             'the loop itself is closed by its contract, output size and bit-buffer state unbounded'),
+]
+
+PROP_TEXT = {
+    'C17': {
+        'assumptions': [
+            'set_dist_mask / set_hash_mask / dictionary functions: the stream is a valid object of exactly sizeof(struct isal_zstream); '
+            'level_buf (reset_dict) is NULL or an object of exactly level_buf_size bytes',
+            'dictionary functions: memcpy is the recorded model lz_memcpy (contracts/stubs_huff.h): range and overlap checks are asserted, '
+            'the (dst, src, n) of each call are recorded and the contracts demand exactly one copy of exactly the last min(len, IGZIP_HIST_SIZE) '
+            'bytes to the start of the history; the copied byte values themselves are C11 7.24.2.1 (not modelled: a symbolic-index write into '
+            'the 64 KiB buffer inside struct isal_zstream exhausts the solver)',
+            'isal_deflate_process_dict: isal_deflate_hash_lvl0..3 are NASM routines behind the dispatcher: recorded uninterpreted stub; proved at the '
+            'call site: every head of the level\'s table is 0xffff on entry, the routine of the stream\'s level is called exactly once on '
+            '(dict->hashtable, table size - 1, index 0, the copied tail, its length); the heads it then sets are not modelled',
+            'distance-symbol maps: dcodes_sizes[sym] <= 15 for the symbol used; get_dist_code: the packed dist_table entry of a short distance is '
+            'well-formed relative to dcodes/dcodes_sizes (create_packed_dist_table is not proved); default build (IGZIP_DIST_TABLE_SIZE 2, '
+            'IGZIP_DECODE_OFFSET 0), not LONGER_HUFFTABLE',
+        ],
+        'not_decided': [
+            'window bound at the match-emission sites of the portable ICF kernels (isal_deflate_icf_body/finish_hash_hist_base, '
+            'isal_deflate_icf_finish_hash_map_base, gen_icf_map_h1_base): the one-arbitrary-iteration harnesses were written but do not close -- '
+            'symbolic indices into the hash table / histograms nested in the 150 KiB struct level_buf exhaust memory (14 GB) even with the head '
+            'index fixed; what is decided instead: the guard constant (set_dist_mask: dist_mask = min(2^w, window) - 1 <= 32767) and the callee '
+            'contracts for every 1 <= dist <= 32768.  The level-0 bodies of igzip_base.c belong to another family (contracts/igzip_body.h)',
+            'byte-level equality history == dictionary tail (only the recorded memcpy arguments are proved); contents of the hash table after '
+            'priming; "the pre-processed dictionary gives the same stream as setting it directly"; dictionary round trip; '
+            'isal_inflate_set_dict; every NASM kernel',
+        ]},
+    'C18': {
+        'assumptions': [
+            'are_hufftables_useable: the two tables are arrays of exactly 286 and 30 struct huff_code; "fits the bit buffer" is '
+            'MAX_BITBUF_BIT_WRITE = 56 bits for literal + length(+extra) + distance(+extra), the widest single write_bits of the level-0 kernels',
+            'write_rl: last_len <= 15 and 1 <= run_len <= 316 (LIT_LEN+DIST_LEN, the capacity of every caller\'s array); the output object has '
+            'exactly the number of entries the greedy coding needs; run_len = 138*k0+r0 and run_len-1 = 6*k1+r1 are passed as ghost scalars',
+            'create_hufftables_icf frame: callees (flatten_ll, init_heap32, gen_huff_code_lens, set_huff_codes, set_dist_huff_codes, rl_encode, '
+            'create_header, expand_hufftables_icf) are replaced by frame-only contracts: each writes exactly the objects it is handed; '
+            'set_huff_codes returns a symbol >= 256 for the lit/len alphabet and set_dist_huff_codes a symbol >= 1 (EOB forced non-zero, heap has '
+            'two entries) -- assumed',
+            'isal_deflate_set_hufftables: "a block is open" is internal_state.state != ZSTATE_NEW_HDR',
+        ],
+        'not_decided': [
+            'fix_code_lens (length-limiting repair: Kraft preservation lemma, exit condition, memory safety with the intentional '
+            'code_len_count/heap union overlay): not attempted for lack of time',
+            'set_huff_codes / set_dist_huff_codes prefix-freeness and rl_encode round trip beyond the stated small bounds (kind=bounded); '
+            'create_huffman_header layout; create_packed_len_table / create_packed_dist_table / expand_hufftables_icf against the RFC (get_len_code '
+            'and get_dist_code are proved relative to a well-formed packed entry); build_heap / build_huff_tree (NASM); isal_create_hufftables '
+            'end to end; "an independent decoder parses the header to exactly those codes"; compression with the table',
+        ]},
+    'C01': {
+        'assumptions': [
+            'encode_deflate_icf_base: at most 4 tokens in the array (their well-formedness -- table indices inside lit_len_table[513] / '
+            'dist_lit_table[288], dist_extra < 2^extra_bit_count -- is a 4-way conjunction; the loop itself is closed by its contract); '
+            'well-formed hufftables_icf: code < 2^length, lit/len length+extra <= 20, distance code length <= 15, extra_bit_count <= 13; the '
+            'bit buffer holds fewer than 8 pending bits and nothing above them; the output object is exactly [m_out_start, m_out_end + 8)',
+            'compare258 / compare: the two ranges are separate objects of exactly min(max_length, 258) / max_length bytes (the overlapping '
+            'call shape str1 = str2 - dist is the thorough-tier harness compare258_overlap)',
+            'include/unaligned.h loads/stores are used with their memcpy bodies; their byte-wise little-endian contracts are proved separately',
+        ],
+        'not_decided': [
+            'bytes stored by encode_deflate_icf_base in the quick tier (state-only invariant; the 8 stored bytes are the thorough-tier variant); '
+            'expand_hufftables_icf (ICF length code 254+length is the format definition of encode_df.h); the match finders and their LZ77 '
+            'state invariants; everything listed as not decided in DESIGN.md C01',
+        ]},
+}
